@@ -888,7 +888,9 @@ func runScenario(w Workload, kills map[int]Kill) (msg string, nontrivial bool, c
 func genWorkload() *rapid.Generator[Workload] {
 	return rapid.Custom(func(t *rapid.T) Workload {
 		w := Workload{Prefix: rapid.SampledFrom([]string{"", "pfx"}).Draw(t, "prefix"), Kind: rapid.SampledFrom([]string{"typed", "map", "binary"}).Draw(t, "kind")}
-		w.Indexes = rapid.SampledFrom([][]string{{"ia"}, {"ia", "in"}, {"ia", "ie"}}).Draw(t, "indexes")
+		// (an index whose name is the start of another index's name, and one named like the key
+		// prefix of the store: their entries are still their own)
+		w.Indexes = rapid.SampledFrom([][]string{{"ia"}, {"ia", "in"}, {"ia", "ie"}, {"ia", "i"}, {"pfx", "ia"}, {"i", "in", "pfx"}}).Draw(t, "indexes")
 		ids := []string{"1", "2", "px", "k", "f1", "$me"} // some ids start with characters of the prefix "pfx." or of the init marker
 		as := []string{"a", "b", "ab", "", "a~", "~", "a^", "^b"}
 		ns := rapid.IntRange(0, 3).Draw(t, "nseeds")
@@ -1359,4 +1361,110 @@ func TestRegressRebuildAfterInitEmptyPrefix(t *testing.T) {
 	evid.ReportKnown(t, prop, "C12-rebuild-scans-init-marker", msg != "", msg, replayCase{W: w})
 	ev.Case(true, evid.Hash("regress-rebuild"), "regress")
 	ev.Case(true, evid.Hash("regress-rebuild-2"), "regress")
+}
+
+// TestRebuildWriters: writers that keep updating records of their own (a counter in the
+// value) while RebuildIndexes is called again and again. badger refuses writes while index
+// entries are being dropped: an update may fail then, but an update whose call returned
+// success is in the store - each writer's last acknowledged value is what its record holds
+// when everything has stopped - and after a final, undisturbed RebuildIndexes the indexes
+// agree with the values.
+func TestRebuildWriters(t *testing.T) {
+	rapid.Check(t, func(rt *rapid.T) {
+		w := Workload{Prefix: rapid.SampledFrom([]string{"", "pfx"}).Draw(rt, "prefix"), Kind: rapid.SampledFrom([]string{"typed", "map"}).Draw(rt, "kind"), Indexes: []string{"ia", "in"}}
+		nw := rapid.IntRange(2, 6).Draw(rt, "writers")
+		rebuilds := rapid.IntRange(5, 25).Draw(rt, "rebuilds")
+		dir := bdb.TempDir("c12writers")
+		defer os.RemoveAll(dir)
+		e, err := openEnv(dir, w)
+		if err != nil {
+			rt.Fatalf("VERIF-INCONCLUSIVE: %v", err)
+		}
+		defer func() { _ = e.db.Close() }()
+		ids := make([]string, nw)
+		for i := range ids {
+			ids[i] = "w" + strconv.Itoa(i)
+			if err := e.apply(w, Op{K: "create", ID: ids[i], A: "a", N: 0}); err != nil {
+				rt.Fatalf("create %s: %v", ids[i], err)
+			}
+		}
+		e.qs.Flush()
+		stop := make(chan struct{})
+		acked := make([]int, nw)  // last counter value whose update returned success
+		failed := make([]int, nw) // updates that were refused
+		var lostMu sync.Mutex
+		lost := ""
+		var wg sync.WaitGroup
+		for i := 0; i < nw; i++ {
+			wg.Add(1)
+			go func(i int) {
+				defer wg.Done()
+				for n := 1; ; n++ {
+					select {
+					case <-stop:
+						return
+					default:
+					}
+					if err := e.apply(w, Op{K: "update", ID: ids[i], A: []string{"a", "b", "ab"}[n%3], N: n}); err == nil {
+						acked[i] = n
+						// nobody else writes this record: what was acknowledged is what a read finds
+						tx := e.st.Read(ids[i])
+						v, rerr := tx.Value()
+						_ = tx.Close()
+						if _, got := fields(v); rerr != nil || got != n {
+							lostMu.Lock()
+							if lost == "" {
+								lost = fmt.Sprintf("writer %d: its update to counter %d returned success, a read right after it finds %d (%v)", i, n, got, rerr)
+							}
+							lostMu.Unlock()
+							return
+						}
+					} else {
+						failed[i]++
+					}
+				}
+			}(i)
+		}
+		for k := 0; k < rebuilds; k++ {
+			_ = e.qs.RebuildIndexes() // may fail on a conflict with a writer: that is allowed
+		}
+		close(stop)
+		wg.Wait()
+		e.qs.Flush()
+		if lost != "" {
+			rt.Fatalf("%s (%d RebuildIndexes calls ran meanwhile)", lost, rebuilds)
+		}
+		refused := 0
+		for i := range ids {
+			refused += failed[i]
+			tx := e.st.Read(ids[i])
+			v, err := tx.Value()
+			_ = tx.Close()
+			if err != nil {
+				rt.Fatalf("record %s after the run: %v", ids[i], err)
+			}
+			if _, n := fields(v); n != acked[i] {
+				rt.Fatalf("writer %d: its last update that returned success wrote counter %d, the store holds %d (%d of its updates were refused; %d RebuildIndexes calls ran meanwhile)", i, acked[i], n, failed[i], rebuilds)
+			}
+		}
+		var rerr error
+		for tries := 0; tries < 4; tries++ {
+			if rerr = e.qs.RebuildIndexes(); rerr == nil {
+				break
+			}
+		}
+		if rerr != nil {
+			rt.Fatalf("RebuildIndexes still fails at the fourth call, with nothing else going on: %v", rerr)
+		}
+		e.qs.Flush()
+		obs, err := observe(e, w, ids)
+		if err != nil {
+			rt.Fatalf("%v", err)
+		}
+		if m := checkIndexes(e, w, obs); m != "" {
+			rt.Fatalf("after %d writers and %d RebuildIndexes calls, and a final undisturbed RebuildIndexes: %s", nw, rebuilds, m)
+		}
+		ev.Case(refused > 0, evid.Hash("rebuildwriters", w.String(), nw, rebuilds, refused > 0), "rebuild-writers")
+		ev.Add("updates-refused-during-rebuild", int64(refused))
+	})
 }
